@@ -9,3 +9,4 @@ require (
 	golang.org/x/sync v0.10.0 // indirect
 )
 require github.com/google/uuid v1.1.1
+require github.com/gorilla/websocket v1.4.2
